@@ -105,11 +105,87 @@ impl C17 {
         }
         ctx.count_n("numeric_offsets_checked", values_checked);
         ctx.count_n("unknown_offsets_met", tops);
-        ctx.class(&format!("{}/b{}/{}{}", arch.name(), f.blocks().len().min(8), if values_checked > 0 {"numeric"} else {"none"}, if tops > 0 {"+unknown"} else {""}));
+        ctx.class(&format!("{}/{}/b{}/{}{}", arch.name(), tag, f.blocks().len().min(8), if values_checked > 0 {"numeric"} else {"none"}, if tops > 0 {"+unknown"} else {""}));
         if values_checked > 0 && ctx.want_sample() {
             ctx.sample(fj());
         }
     }
+}
+
+/// A machine-code function made of the architecture's stack-adjusting idioms, lifted by the
+/// architecture's own translator (so the stack pointer is the scalar the lifter really writes).
+fn lifted_function(rng: &mut Rng, arch: &dyn Architecture) -> Option<ilgen::Gen> {
+    use falcon::memory::backing::Memory;
+    use falcon::memory::MemoryPermissions;
+    let name = arch.name().to_string();
+    let word = |w: u32| -> Vec<u8> {
+        match name.as_str() {
+            "mips" | "ppc" => w.to_be_bytes().to_vec(),
+            _ => w.to_le_bytes().to_vec(),
+        }
+    };
+    let mut bytes: Vec<u8> = Vec::new();
+    let n = 1 + rng.usize(5);
+    for _ in 0..n {
+        let k = (rng.below(16) * 8) as u32;
+        let down = rng.chance(2, 3);
+        match name.as_str() {
+            "x86" => match rng.below(3) {
+                0 => bytes.extend_from_slice(&[0x8d, 0x64, 0x24, if down { (k as u8).wrapping_neg() } else { k as u8 } & 0x7f | if down { 0x80 } else { 0 }]),
+                1 => bytes.extend_from_slice(&[0x83, if down { 0xec } else { 0xc4 }, (k & 0x7f) as u8]),
+                _ => bytes.push(0x90),
+            },
+            "amd64" => match rng.below(3) {
+                0 => bytes.extend_from_slice(&[0x48, 0x8d, 0x64, 0x24, if down { (k as u8).wrapping_neg() } else { k as u8 } & 0x7f | if down { 0x80 } else { 0 }]),
+                1 => bytes.extend_from_slice(&[0x48, 0x83, if down { 0xec } else { 0xc4 }, (k & 0x7f) as u8]),
+                _ => bytes.push(0x90),
+            },
+            "mips" | "mipsel" => {
+                let imm = if down { (k as u16).wrapping_neg() } else { k as u16 };
+                bytes.extend_from_slice(&word(0x27bd_0000 | imm as u32));
+            }
+            "ppc" => {
+                let imm = if down { (k as u16).wrapping_neg() } else { k as u16 };
+                bytes.extend_from_slice(&word(0x3821_0000 | imm as u32));
+            }
+            _ => bytes.extend_from_slice(&word(if down { 0xd100_03ff } else { 0x9100_03ff } | k << 10)),
+        }
+    }
+    match name.as_str() {
+        "x86" | "amd64" => bytes.push(0xc3),
+        "mips" | "mipsel" => {
+            bytes.extend_from_slice(&word(0x03e0_0008));
+            bytes.extend_from_slice(&word(0));
+        }
+        "ppc" => bytes.extend_from_slice(&word(0x4e80_0020)),
+        _ => bytes.extend_from_slice(&word(0xd65f_03c0)),
+    }
+    let mut memory = Memory::new(arch.endian());
+    memory.set_memory(0x1000, bytes, MemoryPermissions::READ | MemoryPermissions::EXECUTE);
+    let t = arch.translator();
+    let f = guard(|| t.translate_function(&memory, 0x1000)).ok()?.ok()?;
+    // every scalar of the lifted code gets an initial value; the descriptor's stack pointer first, so that a
+    // scalar of the same name in the lifted code decides the width
+    let mut pool = vec![arch.stack_pointer()];
+    for b in f.blocks() {
+        for i in b.instructions() {
+            for sc in i.scalars().unwrap_or_default() {
+                if !pool.iter().skip(1).any(|p| p.name() == sc.name()) {
+                    pool.push(sc.clone());
+                }
+            }
+        }
+    }
+    for e in f.edges() {
+        if let Some(c) = e.condition() {
+            for sc in c.scalars() {
+                if !pool.iter().skip(1).any(|p| p.name() == sc.name()) {
+                    pool.push(sc.clone());
+                }
+            }
+        }
+    }
+    Some(ilgen::Gen { f, pool, addr_base: 0x1000 })
 }
 
 impl Check for C17 {
@@ -119,6 +195,14 @@ impl Check for C17 {
     fn run(&mut self, ctx: &mut Ctx, rng: &mut Rng, case: u64) {
         let archs = all_architectures();
         let arch: &dyn Architecture = if case < 7 { archs[case as usize].as_ref() } else { archs[rng.usize(7)].as_ref() };
+        if case >= 7 && rng.chance(1, 8) {
+            // stack idioms lifted from machine code by the architecture's own translator
+            match lifted_function(rng, arch) {
+                Some(g) => self.check(ctx, rng, arch, &g, "lifted"),
+                None => ctx.count("lifted_function_not_available"),
+            }
+            return;
+        }
         let sp = arch.stack_pointer();
         let w = sp.bits();
         let o = GenOpts {
